@@ -698,6 +698,12 @@ def main():
     for m in tally.mism[:25]:
         if m is not None:
             print("  MISMATCH", {k: (v if not isinstance(v, str) or len(v) < 400 else v[:400] + "…") for k, v in m.items()})
+    if os.environ.get("C16_JSON"):
+        import json as _json
+        with open(os.environ["C16_JSON"], "w") as f:
+            _json.dump({"comparisons": total, "distinct": len(tally.seen), "counts": dict(tally.counts),
+                        "python_errors": {k: dict(v) for k, v in tally.errs.items()}, "out_of_domain": dict(tally.ood),
+                        "mismatches": [m for m in tally.mism[:10] if m is not None], "n_mismatches": nm}, f, default=str)
     sys.exit(0 if nm == 0 else 1)
 
 
